@@ -42,6 +42,8 @@ def _is_stream_call(e: ast.AST) -> bool:
 
 
 def run(repo: Repo, rep: Report) -> None:
+    from vlib import h_c04 as H
+
     rep.extra["explanation"] = EXPLANATION
     ev = repo.mod("rdflib.plugins.sparql.evaluate")
     eu = repo.mod("rdflib.plugins.sparql.evalutils")
@@ -55,8 +57,9 @@ def run(repo: Repo, rep: Report) -> None:
              "set()/frozenset()/set-comprehension/dict keys over a stream is allowed only at table-listed "
              "multiplicity-insensitive places", floor=3)
     rep.rule("C04.a2-reiterated-operand-materialised",
-             "the operand that _join / _minus iterate once per left solution is a materialised sequence (list/tuple/set "
-             "display or constructor), never a one-shot generator", floor=3)
+             "the operand that _join / _minus iterate once per left solution is a materialised collection - a display, a "
+             "comprehension, or list/tuple/set/frozenset/sorted(...) - on every path to the call (reaching definitions of "
+             "the local it is passed in), never a one-shot generator", floor=3)
     for mod in (ev, eu, agg):
         for q, f in mod.functions():
             if "." in q:
@@ -104,17 +107,16 @@ def run(repo: Repo, rep: Report) -> None:
                 if isinstance(n, ast.Call) and isinstance(n.func, ast.Name) and n.func.id in ("_join", "_minus") and len(n.args) == 2:
                     b = n.args[1]
                     ok = False
-                    why = ""
-                    if isinstance(b, (ast.List, ast.Tuple, ast.Set)):
-                        ok, why = True, "display"
-                    elif isinstance(b, ast.Call) and isinstance(b.func, ast.Name) and b.func.id in ("list", "tuple", "set", "frozenset", "sorted"):
-                        ok, why = True, b.func.id + "(...)"
+                    why = H.materialised(b) or ""
+                    if why:
+                        ok = True
                     elif isinstance(b, ast.Name):
-                        vals = [x.value for x in own_nodes(f) if isinstance(x, ast.Assign) and any(isinstance(t, ast.Name) and t.id == b.id for t in x.targets)]
-                        if vals and all(isinstance(v, (ast.List, ast.Tuple, ast.Set)) or (isinstance(v, ast.Call) and isinstance(v.func, ast.Name) and v.func.id in ("list", "tuple", "set", "frozenset", "sorted")) for v in vals):
-                            ok, why = True, "%s = %s" % (b.id, norm(vals[0])[:40])
+                        # value flow: every binding of the name that can be the last one before the call gives it a materialised collection
+                        vals = H.values_reaching(mod, f, n, b.id)
+                        if vals and all(H.materialised(v) for v in vals):
+                            ok, why = True, "%s = %s" % (b.id, " | ".join(sorted({H.materialised(v) or "" for v in vals})))
                         else:
-                            why = "%s is not assigned from a materialising constructor (%s)" % (b.id, [norm(v)[:40] for v in vals])
+                            why = "%s is not assigned from a materialising constructor (%s)" % (b.id, [norm(v)[:40] if v is not None else "<parameter / loop target>" for v in vals or []])
                     else:
                         why = "unmodelled operand %s" % norm(b)[:40]
                     rep.ob("C04.a2-reiterated-operand-materialised", mod, q, n, ok,
@@ -133,15 +135,33 @@ def run(repo: Repo, rep: Report) -> None:
     # ------------------------------------------------------------------ (b)
     rep.rule("C04.b-every-node-has-an-evaluator",
              "every algebra node name constructed in algebra.py (except table-listed non-part names) and every query form "
-             "of the grammar has an arm `part.name == <name>` in evalPart that calls an evaluator", floor=20)
+             "of the grammar has an arm `<part>.name == <name>` in evalPart that returns what an evaluator gives: the arm ends "
+             "in a `return` of a call of a function of the evaluator module that is handed the context evalPart was called with", floor=20)
     epf = ev.func("evalPart")
+    ep_params = H.params_of(epf)
+    if not ep_params:
+        raise AnalysisError("evalPart has no parameters")
+    ctx_param = ep_params[0]
+
+    def _evaluator_call(e: ast.AST):
+        """the call, inside a returned expression, of a function defined in evaluate.py that receives evalPart's own context"""
+        for c in ast.walk(e):
+            if isinstance(c, ast.Call) and isinstance(c.func, ast.Name) and ev.has(c.func.id) and isinstance(ev.get(c.func.id), (ast.FunctionDef, ast.AsyncFunctionDef)) \
+                    and any(isinstance(a, ast.Name) and a.id == ctx_param for a in list(c.args) + [k.value for k in c.keywords]):
+                return c
+        return None
+
     arms = {}
     for n in ast.walk(epf):
-        if isinstance(n, ast.If) and isinstance(n.test, ast.Compare) and norm(n.test.left).endswith(".name") and isinstance(n.test.ops[0], ast.Eq) \
-                and isinstance(n.test.comparators[0], ast.Constant):
-            calls = [c for s in n.body for c in ast.walk(s) if isinstance(c, ast.Call) and isinstance(c.func, ast.Name) and c.func.id.startswith("eval")]
-            rets = [s for s in n.body if isinstance(s, ast.Return)]
-            arms[n.test.comparators[0].value] = (calls[0].func.id if calls else None, bool(rets))
+        if isinstance(n, ast.If) and isinstance(n.test, ast.Compare) and len(n.test.ops) == 1 and isinstance(n.test.ops[0], ast.Eq):
+            l_, r_ = n.test.left, n.test.comparators[0]
+            if isinstance(l_, ast.Constant) and not isinstance(r_, ast.Constant):
+                l_, r_ = r_, l_
+            if not (norm(l_).endswith(".name") and isinstance(r_, ast.Constant)):
+                continue
+            rets = [s for s in n.body if isinstance(s, ast.Return) and s.value is not None]
+            calls = [c for c in (_evaluator_call(s.value) for s in rets) if c is not None]
+            arms[r_.value] = (calls[0].func.id if calls else None, bool(rets))
     built = set()
     for n in ast.walk(alg.tree):
         if isinstance(n, ast.Call) and isinstance(n.func, ast.Name) and n.func.id == "CompValue" and n.args and isinstance(n.args[0], ast.Constant):
@@ -192,7 +212,9 @@ def run(repo: Repo, rep: Report) -> None:
     # ------------------------------------------------------------------ (c)
     rep.rule("C04.c-filter-error-is-false",
              "in _ebv every handler of SPARQLError (and the bare handler around the variable lookup) returns False or falls "
-             "through to code that returns False; evalFilter/evalLeftJoin consult their condition only through _ebv", floor=5)
+             "through to code that returns False; every `return` of _ebv gives the constant False or EBV(...) of an evaluation that stands "
+             "in a try whose handler catches the expression error (and the KeyError of a binding look-up), and no path falls off "
+             "the end; evalFilter/evalLeftJoin consult their condition only through _ebv", floor=5)
     f = eu.func("_ebv")
     rep.analysed("rdflib/plugins/sparql/evalutils.py:_ebv")
     g = CFG(f)
@@ -225,9 +247,43 @@ def run(repo: Repo, rep: Report) -> None:
                    "an error makes the filter false" if ok else "after an expression error _ebv can return something other than False (or re-raise): %s" % [norm(b)[:40] for b in bad + direct], node=n)
     if nh < 3:
         raise AnalysisError("_ebv: expected >= 3 exception handlers, found %d" % nh)
-    last = f.body[-1]
-    ok = isinstance(last, ast.Return) and isinstance(last.value, ast.Constant) and last.value.value is False
-    rep.ob("C04.c-filter-error-is-false", eu, "_ebv", "final return False", ok, "" if ok else "_ebv no longer ends with `return False`", node=last)
+    # what _ebv answers when no evaluation applies (or after the first one erred) is False: every way out of the function
+    # is `return False` or the EBV of an evaluation whose error a handler turns into False; nothing falls off the end
+    ERR = {"SPARQLError", "Exception", "BaseException"}
+    LOOKUP_ERR = {"KeyError", "LookupError", "Exception", "BaseException"}
+    rets = [n for n in own_nodes(f) if isinstance(n, ast.Return)]
+    for r in rets:
+        # what the return can hand out: the returned expression, or - for a local - the values that reach it
+        outcomes = [r.value]
+        if isinstance(r.value, ast.Name):
+            outcomes = H.values_reaching(eu, f, r, r.value.id) or [None]
+        ok, why = True, ""
+        for v in outcomes:
+            if isinstance(v, ast.Constant) and v.value is False:
+                why = why or "the constant False"
+            elif isinstance(v, ast.Call) and norm(v.func) == "EBV":
+                # the handlers that an error raised while EBV(...) is evaluated can reach
+                handlers = [h for t in H.try_bodies_around(eu, f, v) for h in t.handlers]
+                caught = any(H.handler_catches(h, ERR) for h in handlers)
+                looks_up = any(isinstance(x, ast.Subscript) for x in ast.walk(v))
+                caught_lookup = not looks_up or any(H.handler_catches(h, LOOKUP_ERR) for h in handlers)
+                if caught and caught_lookup:
+                    why = "an evaluation under a handler of the expression error"
+                else:
+                    ok, why = False, "`%s` is not inside a try that catches %s: the error of the expression leaves _ebv instead of counting as false" % (
+                        norm(v)[:40], "SPARQLError" if not caught else "the KeyError of the binding look-up (an unbound variable)")
+                    break
+            else:
+                ok, why = False, "_ebv returns `%s`, which is neither False nor the effective boolean value of an evaluation: what no case applies to is no longer false" % (
+                    norm(v)[:40] if v is not None else norm(r.value)[:40] if r.value is not None else "None")
+                break
+        rep.ob("C04.c-filter-error-is-false", eu, "_ebv", r, ok, why, node=r)
+    # (not `must_pass_before`: the handler after `try: return EBV(..)` is entered from the return statement itself)
+    ret_nodes = {g.node_of(r) for r in rets}
+    live = g.reach(g.entry, include_src=True)
+    falls_off = any(p in live and p not in ret_nodes for p in g.pred[g.exit])
+    rep.ob("C04.c-filter-error-is-false", eu, "_ebv", "every path ends in a return (the default is `return False`)", not falls_off,
+           "" if not falls_off else "_ebv no longer ends with `return False`: a path falls off the end of the function and answers None", node=f.body[-1])
     for q, attr in (("evalFilter", "expr"), ("evalLeftJoin", "expr")):
         fn = ev.func(q)
         uses = [n for n in ast.walk(fn) if isinstance(n, ast.Attribute) and n.attr == attr and isinstance(n.value, ast.Name)]
@@ -329,11 +385,13 @@ EXEMPT_D: dict = {
 }
 
 
+from vlib.core import layer as _layer  # noqa: E402
+
 _run_base = run
 
 
 def run(repo: Repo, rep: Report) -> None:  # noqa: F811
-    _run_base(repo, rep)
+    _layer(rep, _run_base, repo)
     ev = repo.mod("rdflib.plugins.sparql.evaluate")
     alg = repo.mod("rdflib.plugins.sparql.algebra")
     # ------------------------------------------------------------------ (h)
@@ -370,7 +428,7 @@ _run_base2 = run
 
 
 def run(repo: Repo, rep: Report) -> None:  # noqa: F811
-    _run_base2(repo, rep)
+    _layer(rep, _run_base2, repo)
     op = repo.mod("rdflib.plugins.sparql.operators")
     # ------------------------------------------------------------------ (j)
     rep.rule("C04.j-logical-and-stops-at-the-first-false",
@@ -398,7 +456,7 @@ _run_base3 = run
 
 
 def run(repo: Repo, rep: Report) -> None:  # noqa: F811
-    _run_base3(repo, rep)
+    _layer(rep, _run_base3, repo)
     from vlib import argswap
 
     rep.rule("C04.k-no-swapped-arguments-in-the-evaluator",
@@ -411,7 +469,7 @@ _run_base4 = run
 
 
 def run(repo: Repo, rep: Report) -> None:  # noqa: F811
-    _run_base4(repo, rep)
+    _layer(rep, _run_base4, repo)
     op = repo.mod("rdflib.plugins.sparql.operators")
     # ------------------------------------------------------------------ (l)
     rep.rule("C04.l-regex-flags-are-passed-as-flags",
@@ -473,7 +531,7 @@ _run_base5 = run
 
 def run(repo: Repo, rep: Report) -> None:  # noqa: F811
     """Layer 6: rules o-y (F175-F184), helpers in vlib/h_c04.py."""
-    _run_base5(repo, rep)
+    _layer(rep, _run_base5, repo)
     from vlib import h_c04 as H
 
     rep.extra["explanation"] = rep.extra.get("explanation", "") + (
@@ -856,21 +914,26 @@ def run(repo: Repo, rep: Report) -> None:  # noqa: F811
              "equality, type error for incomparable terms), not with Python `==` (term identity): SPARQL 17.4.1.9 defines `x IN (a, b)` as `x = a || x = b`, so "
              "`1 IN (1.0)` and `\"1\"^^xsd:integer IN (01)` are true", floor=1)
     rf = op.func("RelationalExpression")
+    # the operator table: a table the function writes out itself or a module-level constant it reads, with a row for `=`
+    # whose value is a callable that applies a method of its first argument
     eq_rows = []
-    for n in own_nodes(rf, include_nested=True):
-        pairs = []
-        if isinstance(n, ast.Dict):
-            pairs = list(zip(n.keys, n.values))
-        elif isinstance(n, (ast.List, ast.Tuple)) and n.elts and all(isinstance(x, ast.Tuple) and len(x.elts) == 2 for x in n.elts):
-            pairs = [(x.elts[0], x.elts[1]) for x in n.elts]
-        for k, v in pairs:
-            if isinstance(k, ast.Constant) and k.value == "=" and isinstance(v, ast.Lambda) and isinstance(v.body, ast.Call) and isinstance(v.body.func, ast.Attribute):
-                eq_rows.append(v.body.func.attr)
+    for where, rows in H.tables_of(op, rf):
+        for k, v in rows:
+            if isinstance(k, ast.Constant) and k.value == "=":
+                m_ = H.method_applied_by(op, v)
+                if m_ is not None:
+                    eq_rows.append(m_)
     if len(set(eq_rows)) != 1:
         raise AnalysisError("RelationalExpression: row for `=` of the operator table not found (%s)" % eq_rows)
     eq_method = eq_rows[0]
-    in_branches = [n for n in own_nodes(rf) if isinstance(n, ast.If) and {"IN", "NOT IN"} <= {x.value for x in ast.walk(n.test) if isinstance(x, ast.Constant)}
-                   and not any(isinstance(x, ast.Constant) and x.value == "=" for x in ast.walk(n.test))]
+    # the branch for IN / NOT IN: an `if` whose test is computed (through locals and module constants) from both operator
+    # names and not from `=`
+    in_branches = []
+    for n in own_nodes(rf):
+        if isinstance(n, ast.If):
+            cs = H.constants_behind(op, rf, n.test)
+            if {"IN", "NOT IN"} <= cs and "=" not in cs:
+                in_branches.append(n)
     member_loops = [lp for b in in_branches for s_ in b.body for lp in ast.walk(s_) if isinstance(lp, ast.For)]
     if not member_loops:
         raise AnalysisError("RelationalExpression: loop over the members of the IN list not found")
@@ -917,11 +980,229 @@ def run(repo: Repo, rep: Report) -> None:  # noqa: F811
                    "bool(%s) of a toPython() value is the whole verdict: NaN is truthy in Python, so FILTER(\"NaN\"^^xsd:double) keeps every solution (its EBV is false)" % at, node=c)
 
 
+_run_base6 = run
+
+
+def run(repo: Repo, rep: Report) -> None:  # noqa: F811
+    """Layer 7: rules z, aa-ac (query contexts are not shared-and-written; side-stored patterns are annotated; EXISTS substitutes)."""
+    _layer(rep, _run_base6, repo)
+    from vlib import h_c04 as H
+
+    T = repo.typed
+    ev = repo.mod("rdflib.plugins.sparql.evaluate")
+    alg = repo.mod("rdflib.plugins.sparql.algebra")
+    op = repo.mod("rdflib.plugins.sparql.operators")
+    sp = repo.mod("rdflib.plugins.sparql.sparql")
+    QCN = "QueryContext"
+    QC = "rdflib.plugins.sparql.sparql." + QCN
+    FB = "rdflib.plugins.sparql.sparql.FrozenBindings"
+
+    def _has_type(mod, e: ast.AST, full: str) -> bool:
+        tf = T.type_of(mod.name, e)
+        return bool(tf and any(full in T.mro(i) for i in tf.items))
+
+    # ------------------------------------------------------------------ (z)
+    # A QueryContext is the environment a (lazy) generator evaluates the rest of its pattern in: the active graph, the
+    # dataset, initBindings, the prologue.  A solution only points at the context that produced it (FrozenBindings.ctx) and
+    # so do all the other solutions of that generator, the ones still to come included.
+    makers = H.context_makers(sp.methods(QCN), QCN)
+    if "clone" not in makers or len(makers) < 3:
+        raise AnalysisError("QueryContext: methods that hand out a new context not recognised (%s)" % sorted(makers))
+    rep.rule("C04.z-a-context-is-written-only-by-the-function-that-made-it",
+             "in rdflib/plugins/sparql an attribute of a query context (`<context>.graph = ...`, `.initBindings`, `.prologue` ...) is stored only on a context the "
+             "function has made itself on every path (a local bound to QueryContext(...) or to one of the methods that hand out a new context: %s), never on a "
+             "parameter and never on `<solution>.ctx`: the context of a solution is shared with the generator that produced it and with the solutions it has still "
+             "to produce. evalGraph used to reset `x.ctx.graph` of each solution it yielded, so what the inner pattern evaluated afterwards under the same context used the "
+             "graph that is active OUTSIDE of GRAPH: with :a :p :o; :q :z1, :z2, :z3 in a named graph only, "
+             "`GRAPH ?g { ?s :p ?o { SELECT DISTINCT ?s ?z { ?s :q ?z } } FILTER EXISTS { ?s :q ?z } }` returned one row instead of three" % ", ".join(sorted(makers)), floor=8)
+    for name in sorted(m for m in repo.modules if m.startswith("rdflib.plugins.sparql.")):
+        mod = repo.mod(name)
+        for q, f in mod.functions():
+            g = None
+            selfname = f.args.args[0].arg if (mod is sp and q.startswith(QCN + ".") and q.count(".") == 1 and f.args.args) else None
+            for st in own_nodes(f):
+                for t in H.attr_store_targets(st):
+                    b = t.value
+                    if isinstance(b, ast.Name) and b.id == selfname:
+                        continue  # the class's own methods define what writing a context means
+                    is_ctx = _has_type(mod, b, QC)
+                    if not is_ctx and isinstance(b, ast.Attribute) and b.attr == "ctx" and not _has_type(mod, b.value, QC):
+                        tf = T.type_of(mod.name, b)
+                        is_ctx = tf is None or (tf.any and not tf.items)  # `.ctx` of an untyped solution
+                    if g is None and isinstance(b, ast.Name):
+                        g = CFG(f)
+                    defs = H.reaching_values(mod, f, g, st, b.id) if isinstance(b, ast.Name) else []
+                    vals = [H.bound_value(d, b.id) if d is not None else None for d in defs]
+                    if not is_ctx and any(v is not None and _has_type(mod, v, QC) for v in vals):
+                        is_ctx = True  # a local declared otherwise but bound to a context (Builtin_EXISTS re-uses its parameter)
+                    if not is_ctx:
+                        continue
+                    own = bool(vals) and all(H.is_maker_call(v, makers, QCN) for v in vals)
+                    rep.ob("C04.z-a-context-is-written-only-by-the-function-that-made-it", mod, q, st, own,
+                           "%s was made here (%s)" % (norm(b), norm(vals[0])[:40]) if own else
+                           "%s.%s is stored on a context this function did not make (%s): it is shared with the generator that is still producing solutions under it, "
+                           "which from then on evaluates with the changed %s (in `GRAPH ?g { ?s :p ?o { SELECT DISTINCT ?s ?z { ?s :q ?z } } FILTER EXISTS { ?s :q ?z } }` "
+                           "the solutions of the join share one context: EXISTS is evaluated against the outer graph from the second one on and rows are lost)" % (
+                               norm(b), t.attr, "the context of a solution" if isinstance(b, ast.Attribute) else "a parameter / not bound to a new context on every path", t.attr), node=st)
+
+    # ------------------------------------------------------------------ (aa)
+    # Builtin_EXISTS evaluates its pattern in `<solution>.ctx`: the active graph of an EXISTS written outside of GRAPH { } is
+    # whatever the context of the solution says.
+    rep.rule("C04.aa-solutions-leave-graph-on-the-outer-context",
+             "a function of the evaluator that evaluates a part under a context with another active graph (`<ctx>.pushGraph(...)`) does not hand the solutions of "
+             "that part out as they are: every `yield` constructs FrozenBindings(<outer context>, <inner solution>) on a context that is not derived from the pushed "
+             "one. The inner solution's `.ctx` has the inner graph, and a filter applied outside evaluates EXISTS in the context of the solution: "
+             "`{ GRAPH ?g { ?s :p ?o } FILTER EXISTS { ?s :q ?z } }` must look for `?s :q ?z` in the default graph, not in ?g", floor=2)
+    n_push = 0
+    for q, f in ev.functions():
+        if "." in q:
+            continue
+        if not any(isinstance(c, ast.Call) and isinstance(c.func, ast.Attribute) and c.func.attr == "pushGraph" for c in own_nodes(f)):
+            continue
+        n_push += 1
+        pushed: set[str] = set()
+        changed = True
+        while changed:
+            changed = False
+            for n in own_nodes(f):
+                if isinstance(n, ast.Assign) and len(n.targets) == 1 and isinstance(n.targets[0], ast.Name) and n.targets[0].id not in pushed:
+                    if any((isinstance(x, ast.Call) and isinstance(x.func, ast.Attribute) and x.func.attr == "pushGraph") or (isinstance(x, ast.Name) and x.id in pushed)
+                           for x in ast.walk(n.value)):
+                        pushed.add(n.targets[0].id)
+                        changed = True
+        inner: set[str] = set()
+        for n in own_nodes(f):
+            if isinstance(n, (ast.For, ast.comprehension)) and any(isinstance(x, ast.Name) and x.id in pushed for x in ast.walk(n.iter)):
+                inner |= {x.id for x in ast.walk(n.target) if isinstance(x, ast.Name)}
+        ys = [y for y in own_nodes(f) if isinstance(y, (ast.Yield, ast.YieldFrom))]
+        if not ys:
+            raise AnalysisError("%s: evaluates under pushGraph() but yields nothing (rule C04.aa premise changed)" % q)
+        for y in ys:
+            v = y.value
+            ok, why = False, "the solution is handed out as `%s`" % (norm(v)[:40] if v is not None else "None")
+            if isinstance(y, ast.Yield) and isinstance(v, ast.Call) and isinstance(v.func, ast.Name) and v.func.id == "FrozenBindings" and v.args:
+                a0 = v.args[0]
+                if isinstance(a0, ast.Name) and a0.id not in pushed and a0.id not in inner and not any(
+                        isinstance(x, ast.Attribute) and x.attr == "ctx" for d in H.local_defs(f, a0.id) for x in ast.walk(d)):
+                    ok, why = True, "re-attached to %s" % a0.id
+                else:
+                    why = "FrozenBindings is constructed on `%s`, which is (derived from) the context with the inner graph" % norm(a0)[:40]
+            rep.ob("C04.aa-solutions-leave-graph-on-the-outer-context", ev, q, y, ok,
+                   why if ok else why + ": its context keeps the graph GRAPH made active (or has to be patched in place, see C04.z), so "
+                   "`{ GRAPH ?g { ?s :p ?o } FILTER EXISTS { ?s :q ?z } }` evaluates EXISTS inside ?g", node=y)
+    if not n_push:
+        raise AnalysisError("evaluate.py: no function evaluates under pushGraph() (rule C04.aa anchor vanished)")
+
+    # ------------------------------------------------------------------ (ab)
+    # translateQuery makes passes over the finished algebra (simplify, analyse -> lazy flags, _addVars -> _vars).  The passes
+    # walk the ITEMS of the nodes.  A translated pattern that is kept on the side of a node (an attribute: EXISTS keeps its
+    # pattern in `.graph`; an item of a node that is not part of the query tree: the `where` of an update) is not reached.
+    tq = alg.func("translateQuery")
+    roots = {norm(c.args[1]) for c in own_nodes(tq) if isinstance(c, ast.Call) and norm(c.func) == "Query" and len(c.args) >= 2}
+    if not roots:
+        raise AnalysisError("translateQuery: `Query(prologue, <algebra>)` not found")
+
+    def _pass_calls(fn: ast.AST, refs: set[str]) -> set[str]:
+        """names of the functions handed, as visitors, to a call whose first argument is one of `refs`"""
+        out: set[str] = set()
+        for c in own_nodes(fn):
+            if isinstance(c, ast.Call) and c.args and norm(c.args[0]) in refs and isinstance(c.func, ast.Name) and "traverse" in c.func.id.lower():
+                for a in list(c.args[1:]) + [k.value for k in c.keywords]:
+                    out |= {x.id for x in ast.walk(a) if isinstance(x, ast.Name) and alg.has(x.id)}
+        return out
+
+    passes = _pass_calls(tq, roots)
+    if len(passes) < 3:
+        raise AnalysisError("translateQuery: expected >= 3 passes over the finished algebra, found %s" % sorted(passes))
+    rep.rule("C04.ab-a-pattern-kept-beside-the-tree-gets-the-passes-of-the-tree",
+             "where the translator stores a translated group graph pattern (a value computed from translateGroupGraphPattern(...)) through an attribute or item "
+             "assignment on an existing node instead of building it into the tree it returns, the same function makes over it every pass translateQuery makes "
+             "over the finished algebra (%s): the traversals follow the items of the tree and do not reach it. Without them the pattern of EXISTS has no `_vars` and no "
+             "lazy flags: in `?s :p ?x FILTER EXISTS { ?s :q ?y OPTIONAL { ?s :q ?z FILTER(?z = ?x) } FILTER(bound(?z)) }` and `... EXISTS { ?s :q ?y BIND(?x AS ?w) "
+             "FILTER(?w = ?y) }` the substituted ?x is lost and no row is returned" % ", ".join(sorted(passes)), floor=2)
+    for q, f in alg.functions():
+        for st in own_nodes(f):
+            if not (isinstance(st, ast.Assign) and len(st.targets) == 1 and isinstance(st.targets[0], (ast.Attribute, ast.Subscript))):
+                continue
+            if not any(isinstance(x, ast.Call) and norm(x.func) == "translateGroupGraphPattern" for x in H.closure_nodes(f, st.value, depth=3)):
+                continue
+            t = st.targets[0]
+            refs = {norm(t)}
+            if isinstance(t, ast.Subscript) and isinstance(t.slice, ast.Constant) and isinstance(t.slice.value, str):
+                refs.add("%s.%s" % (norm(t.value), t.slice.value))  # CompValue: node["k"] is node.k
+            if isinstance(st.value, ast.Name):
+                refs.add(st.value.id)
+            done = _pass_calls(f, refs)
+            # passes made in the very expression that is stored
+            for c in ast.walk(st.value):
+                if isinstance(c, ast.Call) and isinstance(c.func, ast.Name) and "traverse" in c.func.id.lower():
+                    for a in list(c.args[1:]) + [k.value for k in c.keywords]:
+                        done |= {x.id for x in ast.walk(a) if isinstance(x, ast.Name) and alg.has(x.id)}
+            missing = sorted(passes - done)
+            rep.ob("C04.ab-a-pattern-kept-beside-the-tree-gets-the-passes-of-the-tree", alg, q, st, not missing,
+                   "all passes made here" if not missing else
+                   "the pattern stored in %s never gets the pass(es) %s that the query's algebra gets: its nodes have no _vars / lazy flags, so a FILTER, BIND, MINUS or "
+                   "OPTIONAL condition inside it forgets the variables it should keep (EXISTS { ?s :q ?y BIND(?x AS ?w) FILTER(?w = ?y) } is false for every ?x)" % (norm(t), missing), node=st)
+
+    # ------------------------------------------------------------------ (ac)
+    # EXISTS is defined by SUBSTITUTION of the current solution into the pattern (SPARQL 18.6 substitute): inside the pattern the
+    # variables of the solution are constants.  The evaluator's notion of a constant is an initial binding: forget() never hides it.
+    rep.rule("C04.ac-exists-substitutes-the-solution-as-initial-bindings",
+             "an expression evaluator (operators.py) that evaluates a graph pattern with evalPart does so in a context made by `<...>.thaw(<the solution it was "
+             "called with>)`, and on every path to the evalPart call has stored into that context's `initBindings` a mapping computed from the same solution: a "
+             "binding that is merely thawed in counts as `pushed in from a join` and is hidden again by forget() from the FILTER / BIND / OPTIONAL conditions inside the "
+             "pattern. `?s :p ?x FILTER EXISTS { ?s :q ?y BIND(?x AS ?w) FILTER(?w = ?y) }` then has no solution although :a :p 1; :q 1 matches", floor=1)
+    n_ac = 0
+    for q, f in op.functions():
+        if "." in q:
+            continue
+        calls = [c for c in own_nodes(f) if isinstance(c, ast.Call) and norm(c.func).split(".")[-1] == "evalPart"]
+        if not calls:
+            continue
+        g = CFG(f)
+        for c in calls:
+            n_ac += 1
+            ok, why = False, ""
+            a0 = c.args[0] if c.args else None
+            if not isinstance(a0, ast.Name):
+                why = "the context %s is not a local made by thaw()" % (norm(a0)[:40] if a0 is not None else "<none>")
+            else:
+                defs = H.reaching_values(op, f, g, c, a0.id)
+                thaws = []
+                for d in defs:
+                    v = H.bound_value(d, a0.id) if d is not None else None
+                    if isinstance(v, ast.Call) and isinstance(v.func, ast.Attribute) and v.func.attr == "thaw" and len(v.args) == 1 and isinstance(v.args[0], ast.Name):
+                        thaws.append((d, H.denotes_param(op, f, g, d, v.args[0].id)))
+                    else:
+                        thaws.append((d, None))
+                sols = {s for _, s in thaws}
+                if not thaws or None in sols or len(sols) != 1:
+                    why = "the context is not `thaw(<the solution parameter>)` on every path"
+                else:
+                    sol = sols.pop()
+                    stores = []
+                    for st in own_nodes(f):
+                        for t in H.attr_store_targets(st):
+                            if t.attr == "initBindings" and isinstance(t.value, ast.Name) and t.value.id == a0.id and isinstance(st, ast.Assign):
+                                same_ctx = all(any(x is d for d, _ in thaws) for x in H.reaching_values(op, f, g, st, a0.id) if x is not None) and None not in H.reaching_values(op, f, g, st, a0.id)
+                                from_sol = any(isinstance(x, ast.Name) and isinstance(x.ctx, ast.Load) and H.denotes_param(op, f, g, st, x.id) == sol for x in ast.walk(st.value))
+                                if same_ctx and from_sol:
+                                    stores.append(g.node_of(st))
+                    ok = bool(stores) and g.must_pass_before(g.node_of(c, op), stores)
+                    why = "initBindings of the thawed context include the solution" if ok else \
+                        "no `%s.initBindings = <... the solution %s ...>` dominates the evaluation of the pattern" % (a0.id, sol)
+            rep.ob("C04.ac-exists-substitutes-the-solution-as-initial-bindings", op, q, c, ok,
+                   why if ok else why + ": the variables of the current solution are not constants inside the pattern, forget() hides them from the conditions "
+                   "evaluated in it (EXISTS { ?s :q ?y OPTIONAL { ?s :q ?z FILTER(?z = ?x) } FILTER(bound(?z)) } is false for every outer ?x)", node=c)
+    if not n_ac:
+        raise AnalysisError("operators.py: no expression evaluates a graph pattern with evalPart (rule C04.ac anchor vanished)")
+
+
 _run_before_borrow = run
 
 
 def run(repo: Repo, rep: Report) -> None:  # noqa: F811
-    _run_before_borrow(repo, rep)
+    _layer(rep, _run_before_borrow, repo)
     from vlib.core import borrow
 
     borrow(repo, rep, "C04", "C15", ('C15.a',))
